@@ -352,6 +352,14 @@ def run(analysis: Analysis, tier: str) -> RuleResult:
         "CRC value, Intel-HEX decoding and reassembly equality are not decided.",
     ]
     fmt_rule(analysis, res)
+    # what is served under (type, version) is the image the update call brought (C10's update rows, shared)
+    from . import c10
+
+    for summ in common.pmap(analysis, c10.update_worker, [(analysis.versions[-1], "serial", "sync")]):
+        for r in summ["rows"]:
+            if r["kind"] == "val" and r["req"] and r.get("bin_given"):
+                oks = r["stored_image"]
+                res.add("C09-R3", "ota:OTAFirmware.make_update / an update call that brings an image stores the record prepared from that image under (type, version)", oks, "mysensors/ota.py", "firmware[type, version] = prepare_fw(fw_bin)" if oks else f"a path schedules the node although the image passed in was not stored (stored: {r['fw_store_vals']}): nodes are served an older image kept under the same (type, version)", r["witness"] if not oks else None)
     common.check_no_key_removal(analysis, res, "C09-R3", maps={"firmware"}, what="no-removal scan of the firmware store", why="a loaded firmware image can be dropped from the store: a node still scheduled for it (or in the middle of its transfer) gets no further blocks")
     last = analysis.versions[-1]
     for summ in common.pmap(analysis, echo_worker, [(q, (last, "serial", "sync")) for q in ("ota:OTAFirmware.respond_fw", "ota:OTAFirmware.respond_fw_config")]):
